@@ -86,6 +86,10 @@ def _terms(labels, quad, spin):
         poly(gen.INT_COEFS, 2), poly(gen.DYADIC_COEFS, 2), poly(coefs, 1), poly(coefs, 4), poly(coefs, 0),
         poly(coefs, 2, False), poly(gen.SMALL_INT_COEFS, 4, False),
         poly(coefs, 3), poly(gen.SMALL_INT_COEFS, 5), poly(gen.TINY_COEFS, 2), poly(gen.HUGE_COEFS, 2),
+        # mixed magnitudes that are still exact in binary floating point: order-1 terms next to a constant or one
+        # coefficient of 2^40 (values that differ in the 13th significant digit are different values)
+        poly(gen.SMALL_INT_COEFS, 2, False).map(lambda t: t + [[(), 2.0 ** 40]]),
+        poly(gen.SMALL_INT_COEFS, 3, False).map(lambda t: [[t[0][0], (2.0 ** 40) * t[0][1]]] + t[1:]),
         st.one_of(
             st.tuples(st.just(()), st.one_of(gen.INT_COEFS, gen.DYADIC_COEFS)).map(lambda t: [list(t)]),   # constant only
             st.just([])),                                                                              # empty
@@ -119,6 +123,9 @@ def cases():
                 "stale_keys": st.lists(gen.key_strategy(labels, 2, False, min_deg=1), min_size=0, max_size=2),
                 "zero_offset": gen.pick((False, 3), (True, 1)),
                 "ctype": gen.CTYPE,
+                # method solver on a model without constraints: a user subclass whose is_solution_valid is the generated
+                # predicate (the docstrings define M.solve_bruteforce() through self.is_solution_valid)
+                "subclass": gen.pick((False, 2), (True, 1)),
             }))
     return st.sampled_from(_choices()).flatmap(for_choice)
 
@@ -218,7 +225,10 @@ def _run(spec, rec, qv):
     rows = 1 << n
     gmin = tab.min()
     own = (solver == "method")
-    if own:
+    # (PCBO / PCSO cannot be subclassed at all: their __init__ calls super(self.__class__, self), which recurses for
+    # any subclass - an observation outside C09, see DESIGN section 8)
+    user_sub = own and not cons and bool(spec.get("subclass")) and kind not in ("PCBO", "PCSO")
+    if own and not user_sub:
         mode = "own" if cons else "method_unconstrained"
         valid_rows = np.ones(rows, dtype=bool)
         for rel, cterms, lam, log_trick in cons:
@@ -262,6 +272,11 @@ def _run(spec, rec, qv):
             state["bad"] = repr(x)
             return False
         return bool(valid_rows[r])
+
+    if user_sub:
+        Sub_ = type("User" + type(M).__name__, (type(M),), {"is_solution_valid": lambda self, x: valid(x)})
+        M = lib(Sub_, M, what="subclass copy constructor")
+        classes.add("user_subclass")
 
     # ---- call ----------------------------------------------------------
     before = gen.snapshot(M)
